@@ -41,6 +41,7 @@ pub struct Profile {
     pub w_probe: u32,
     pub w_clear: u32,
     pub w_reserve: u32,
+    pub w_roundtrip: u32,
     // selector weights
     pub s_live: u32,
     pub s_removed: u32,
@@ -54,6 +55,7 @@ pub struct Profile {
 }
 
 const CHURN_SMALL: &[(u32, u32, u32)] = &[(1, 1, 6)];
+const CHURN_C16: &[(u32, u32, u32)] = &[(10, 1, 6), (1, 32_766, 32_770)];
 const CHURN_C06: &[(u32, u32, u32)] = &[(6, 1, 6), (3, 100, 300), (3, 32_760, 32_790), (1, 65_530, 65_560), (1, 70_000, 70_000)];
 
 impl Profile {
@@ -72,6 +74,7 @@ impl Profile {
             w_probe: 3,
             w_clear: 0,
             w_reserve: 0,
+            w_roundtrip: 0,
             s_live: 50,
             s_removed: 8,
             s_rel: 42,
@@ -211,6 +214,17 @@ impl Profile {
                 p.w_remove_subtree = 6;
                 p.w_churn = 1;
             }
+            "C16" => {
+                p.name = "C16";
+                p.w_roundtrip = 8;
+                p.churn = CHURN_C16;
+                p.w_remove = 14;
+                p.w_remove_subtree = 8;
+                p.w_new = 20;
+                p.w_churn = 1;
+                p.w_clear = 1;
+                p.w_probe = 0;
+            }
             // general-purpose profile: everything on (fuzz target, C16/C17 batteries)
             "ALL" => {
                 p.name = "ALL";
@@ -280,6 +294,7 @@ pub fn op_strategy(p: &Profile) -> BoxedStrategy<Op> {
     add(p.w_probe, any::<u64>().prop_map(|seed| Op::Probe { seed }).boxed());
     add(p.w_clear, Just(Op::Clear).boxed());
     add(p.w_reserve, (0u16..64).prop_map(|k| Op::Reserve { k }).boxed());
+    add(p.w_roundtrip, Just(Op::Roundtrip).boxed());
     proptest::strategy::Union::new_weighted(alts).boxed()
 }
 
